@@ -50,16 +50,24 @@ def run(ctx):
     pm = ctx.try_fn('b', E + 'protocol_message::ProtocolMessage::compute_legacy_digest_bytes')
     if pm is not None:
         body = pm.body
-        ups = [c for c in body.calls() if any(glob_match(p, n) for p in DIGEST for n in c.names())]
-        ok_k = ok_v = False
-        for c in ups:
-            og = fn_origins(pm, c.args[1], True) if len(c.args) > 1 else set()
-            if has(og, 'pty:ProtocolMessage.message_parts') and has(og, 'call:*ToString*::to_string'):
-                ok_k = True
-            elif has(og, 'pty:ProtocolMessage.message_parts'):
-                ok_v = True
+        # in the loop body, or in the closure the parts are folded with (`parts.iter().fold(Sha256::new(), |h, (k, v)| h.chain_update(..))`)
         from engine import loop_body_entry
-        in_loop = [c for c in ups if loop_body_entry(body, c.bb) is not None]
+        ok_k = ok_v = False
+        in_loop = []
+        SRC = ['pty:ProtocolMessage.message_parts', 'pty:BTreeMap', 'lty:ProtocolMessage.message_parts']
+        for g in pm.family():
+            gb = g.body
+            for c in gb.calls():
+                if not any(glob_match(p, n) for p in DIGEST for n in c.names()) or len(c.args) < 2:
+                    continue
+                og = fn_origins(g, c.args[1], True)
+                src = any(has(og, x) for x in SRC)
+                if src and has(og, 'call:*ToString*::to_string'):
+                    ok_k = True
+                elif src:
+                    ok_v = True
+                if g is not pm or loop_body_entry(gb, c.bb) is not None:
+                    in_loop.append(c)
         if ok_k and ok_v and len(in_loop) >= 2:
             R.ok('b', 'R4', 'compute_legacy_digest_bytes: key and value of every part are fed (loop over message_parts)',
                  '%d update sites in the loop' % len(in_loop), pm.loc())
@@ -176,6 +184,6 @@ def find_impl(ctx, clause, self_ty, trait, from_ty):
     cands = ctx.ws.find_all('<%s as %s>::try_from' % (self_ty, trait))
     for f in cands:
         if f.argc == 1 and from_ty in f.body.lty(1) and f.unit.tag == 'lib':
-            return f
+            return ctx.view(f)
     ctx.report.missing(clause, 'impl %s<%s> for %s not found' % (trait, from_ty, self_ty))
     return None
